@@ -254,6 +254,16 @@ func (m *Model) Apply(e string) string {
 		m.delivered[fmt.Sprintf("%d/%d", i, k)]++
 		m.noteBudget(i)
 		return world.ErrClass(m.W.Deliver(ctx, i, m.produced[k]))
+	case "Z":
+		// a vertex sealed by the outside sealer M directly on the genesis vertex (an old parent): creates a side branch
+		i, _ := strconv.Atoi(p[1])
+		t := m.txs[p[2]]
+		m.crafted[p[2]] = true
+		g := m.W.Genesis
+		v := m.W.Craft(m.actor("M"), t, g.Hash, g.Hash, g.Weight+1)
+		m.produced = append(m.produced, v)
+		m.delivered[fmt.Sprintf("%d/%d", i, len(m.produced)-1)]++
+		return world.ErrClass(m.W.Deliver(ctx, i, v))
 	case "X", "Y":
 		i, _ := strconv.Atoi(p[1])
 		t := m.txs[p[2]]
